@@ -26,7 +26,7 @@ def _strategy_marg(shapes):
         diag = draw(st.booleans())
         dims = draw(gen.perm_prefix(D))
         return {"D": D, "R": R, "N": N, "diag": diag, "dims": dims,
-                "p": draw(gen.measure_params("diag_pdf" if diag else "pdf", R, D, draw(st.sampled_from([10.0, 100.0])))),
+                "p": draw(gen.measure_params("diag_pdf" if diag else "pdf", R, D, draw(st.sampled_from([10.0, 100.0])), extreme=True)),
                 "x": draw(gen.arr((N, len(dims)), -3, 3))}
     return s()
 
